@@ -75,8 +75,20 @@ int
 checkreply(const char *status, const char **pre, const int mask)
 {
 	int ignore = (status == NULL);
+	/* Without status codes the reply is only consumed because the outcome has
+	 * already been reported (outstanding replies to pipelined commands). Errors
+	 * must not be reported on top of that, so they must not be fatal. */
+	const unsigned int fatal = (status != NULL);
 
-	int res = netget(1);
+	int res = netget(fatal);
+	if (!fatal && (res < 0)) {
+		/* the connection is gone, make sure nothing is sent there anymore */
+		if ((res == -ECONNRESET) || (res == -ETIMEDOUT)) {
+			close(socketd);
+			socketd = -1;
+		}
+		return res;
+	}
 	if (status) {
 		unsigned int m;	// mask bit
 
@@ -119,7 +131,14 @@ checkreply(const char *status, const char **pre, const int mask)
 			write_status_raw(linein.s, linein.len + 1);
 		}
 		/* ignore the SMTP code sent here, if it's different from the one before the server is broken */
-		(void) netget(1);
+		int t = netget(fatal);
+		if (!fatal && (t < 0)) {
+			if ((t == -ECONNRESET) || (t == -ETIMEDOUT)) {
+				close(socketd);
+				socketd = -1;
+			}
+			return t;
+		}
 	}
 
 	if (!ignore)
